@@ -184,3 +184,80 @@ Proof.
   cbn [lsml_descent descend]. unfold lsml_iteration. rewrite src_try_fold_is_search.
   destruct (@search O s None cands) as [s' [M'|]]; [apply IH | reflexivity].
 Qed.
+
+(* ---- the whole gradient: the translated _gradient acts on every vector as the model's gradient ---- *)
+Lemma vadd_comm_R : forall u v : Rv, vaddR u v = vaddR v u.
+Proof. induction u as [|a u IH]; intros [|b v]; cbn; auto. rewrite IH. f_equal. rsimp. ring. Qed.
+Lemma vadd_assoc_R : forall u v w : Rv, vaddR u (vaddR v w) = vaddR (vaddR u v) w.
+Proof. induction u as [|a u IH]; intros [|b v] [|c w]; cbn; auto. rewrite IH. f_equal. rsimp. ring. Qed.
+
+Lemma grad_term_wfm d (M : Rm) (q : quadR) : wfvR d (qab q) -> wfvR d (qcd q) -> wfmR d d (@grad_term ROps M q).
+Proof. intros Ha Hc. unfold grad_term. apply madd_wfm; apply mscale_wfm; apply outer_wfm_kd; auto. Qed.
+
+Lemma sub_mm_wfm d : forall (P Q : Rm), wfmR d d P -> wfmR d d Q -> wfmR d d (map2 vsubR P Q).
+Proof.
+  intros P Q [HP1 HP2] [HQ1 HQ2].
+  assert (L: length P = length Q) by (transitivity d; [exact HP1 | symmetry; exact HQ1]).
+  clear HQ1. split.
+  - rewrite <- HP1. clear HP1 HP2 HQ2. revert Q L. induction P as [|p P IH]; intros [|q Q] L; cbn in *; try discriminate; auto.
+  - clear HP1. revert Q L HQ2. induction P as [|p P IH]; intros [|q Q] L HQ2; cbn in *; try discriminate; try constructor.
+    + inversion HP2; inversion HQ2; subst. unfold wfv in *. match goal with Hp : length p = d, Hq : length q = d |- _ => etransitivity; [apply vsub_length; transitivity d; [exact Hp | symmetry; exact Hq] | exact Hp] end.
+    + inversion HP2; inversion HQ2; subst. apply IH; auto.
+Qed.
+
+(* the terms the violated constraints contribute along x, in the order of the constraints *)
+Definition gterms (M : Rm) (x : Rv) (qs : list quadR) : list Rv :=
+  map (fun q => mvmulR (@grad_term ROps M q) x) (filter (@violated ROps M) qs).
+
+Lemma model_gradient_action d (M P Minv : Rm) (x : Rv) : wfmR d d P -> wfmR d d Minv -> wfvR d x ->
+  forall qs : list quadR, Forall (fun q => wfvR d (qab q) /\ wfvR d (qcd q)) qs ->
+  mvmulR (@gradient ROps d M P Minv qs) x = fold_right vaddR (mvmulR (map2 vsubR P Minv) x) (gterms M x qs) /\
+  wfmR d d (@gradient ROps d M P Minv qs).
+Proof.
+  intros HP HI Hx. induction qs as [|q qs IH]; intro H.
+  - cbn. split; [reflexivity | apply sub_mm_wfm; assumption].
+  - inversion H as [|? ? [Ha Hc] H']; subst. destruct (IH H') as [E W].
+    unfold gradient in *. cbn [fold_right]. unfold gterms. cbn [filter]. destruct (@violated ROps M q).
+    + cbn [map fold_right]. split.
+      * rewrite (mvmul_madd_kd d d) by (auto; apply grad_term_wfm; auto). rewrite E. reflexivity.
+      * apply madd_wfm; [apply grad_term_wfm; auto | exact W].
+    + split; assumption.
+Qed.
+
+Lemma src_loop_action d (M : Rm) (x : Rv) : wfvR d x ->
+  forall (w : Rv) (vab vcd G : Rm), wfmR d d G -> Forall (wfvR d) vab -> Forall (wfvR d) vcd -> length w = length vab -> length vab = length vcd ->
+  let viol := @nn_gt_vv ROps (map (quadformR M) vab) (map (quadformR M) vcd) in
+  mvmulR (@lsml_grad_loop ROps G (nn_mask viol w) (nn_mask viol vab) (nn_mask viol (map (quadformR M) vab))
+                          (nn_mask viol vcd) (nn_mask viol (map (quadformR M) vcd))) x =
+  fold_left vaddR (gterms M x (zipq w vab vcd)) (mvmulR G x).
+Proof.
+  intros Hx. induction w as [|w0 w IH]; intros [|a vab] [|c vcd] G HG Hab Hcd L1 L2; cbn in L1, L2; try discriminate.
+  - reflexivity.
+  - cbv zeta. cbn [map nn_gt_vv map2 zipq]. unfold gterms. cbn [filter].
+    inversion Hab as [|? ? Ha Hab']; inversion Hcd as [|? ? Hc Hcd']; subst.
+    change (@violated ROps M (@Build_quad ROps a c w0)) with (oltb ROps (quadformR M c) (quadformR M a)).
+    destruct (oltb ROps (quadformR M c) (quadformR M a)) eqn:E.
+    + cbn [nn_mask lsml_grad_loop map fold_left].
+      pose (q := @Build_quad ROps a c w0).
+      destruct (src_grad_step_action d G M q x HG Ha Hc Hx) as [EA WA]. cbn [qw qab qcd q] in EA, WA. unfold dM in EA, WA.
+      etransitivity; [apply (IH vab vcd _ WA Hab' Hcd'); lia|].
+      f_equal. exact EA.
+    + cbn [nn_mask]. apply (IH vab vcd G HG Hab' Hcd'); lia.
+Qed.
+
+Theorem src_gradient_action d (w : Rv) (Minv M vab vcd P : Rm) (x : Rv) :
+  wfmR d d M -> wfmR d d P -> wfmR d d Minv -> Forall (wfvR d) vab -> Forall (wfvR d) vcd -> length w = length vab -> length vab = length vcd ->
+  wfvR d x ->
+  mvmulR (@lsml_gradient ROps w Minv M vab vcd P) x = mvmulR (@gradient ROps d M P Minv (zipq w vab vcd)) x.
+Proof.
+  intros HM HP HI Hab Hcd L1 L2 Hx. unfold lsml_gradient.
+  rewrite (rows_quadform d M vab HM Hab), (rows_quadform d M vcd HM Hcd).
+  unfold nn_sub_mm.
+  etransitivity; [exact (src_loop_action d M x Hx w vab vcd (map2 vsubR P Minv) (sub_mm_wfm d P Minv HP HI) Hab Hcd L1 L2)|].
+  assert (QW: Forall (fun q : quadR => wfvR d (qab q) /\ wfvR d (qcd q)) (zipq w vab vcd)).
+  { clear - Hab Hcd. revert vab vcd Hab Hcd. induction w as [|w0 w IH]; intros [|a vab] [|c vcd] Ha Hc; cbn [zipq]; try constructor.
+    - inversion Ha; inversion Hc; subst. split; assumption.
+    - inversion Ha; inversion Hc; subst. apply IH; assumption. }
+  rewrite (proj1 (model_gradient_action d M P Minv x HP HI Hx _ QW)).
+  apply fold_symmetric; [intros; apply vadd_assoc_R | intros; apply vadd_comm_R].
+Qed.
